@@ -65,32 +65,32 @@ type ReplayFile struct {
 
 // WorkerOut is what a worker process hands back to the driver.
 type WorkerOut struct {
-	Harness      string              `json:"harness"`
-	Property     string              `json:"property"`
-	Runs         int                 `json:"runs"`
-	NonTrivial   int                 `json:"nontrivial"`
-	Hashes       []string            `json:"hashes"` // schedule hashes of non-trivial runs
-	States       []string            `json:"states"`
-	Steps        int64               `json:"steps"`
-	SimSeconds   float64             `json:"sim_seconds"`
-	Faults       map[string]int      `json:"faults"`
-	Probes       map[string]int      `json:"probes"`
-	Strategies   map[string]int      `json:"strategies"`
-	Info         map[string]int      `json:"info"`
-	Known        map[string]int      `json:"known"`
-	Violations   []WorkerViolation   `json:"violations"`
-	Samples      [][]string          `json:"samples"`
-	Errors       []string            `json:"errors"`
-	Discarded    int                 `json:"discarded_overflow"`
-	NonBaton     int                 `json:"non_baton_draws"`
-	WallS        float64             `json:"wall_s"`
-	Real         []string            `json:"real"`
-	Stub         []string            `json:"stub"`
-	Rule         string              `json:"rule"`
-	Assumptions  []string            `json:"assumptions"`
-	DetHashes    map[string]string   `json:"det_hashes,omitempty"` // selftest: run index -> full hash
-	Replay       *ReplayOutcome      `json:"replay,omitempty"`
-	MaxRunnable  int                 `json:"max_runnable"`
+	Harness     string            `json:"harness"`
+	Property    string            `json:"property"`
+	Runs        int               `json:"runs"`
+	NonTrivial  int               `json:"nontrivial"`
+	Hashes      []string          `json:"hashes"` // schedule hashes of non-trivial runs
+	States      []string          `json:"states"`
+	Steps       int64             `json:"steps"`
+	SimSeconds  float64           `json:"sim_seconds"`
+	Faults      map[string]int    `json:"faults"`
+	Probes      map[string]int    `json:"probes"`
+	Strategies  map[string]int    `json:"strategies"`
+	Info        map[string]int    `json:"info"`
+	Known       map[string]int    `json:"known"`
+	Violations  []WorkerViolation `json:"violations"`
+	Samples     [][]string        `json:"samples"`
+	Errors      []string          `json:"errors"`
+	Discarded   int               `json:"discarded_overflow"`
+	NonBaton    int               `json:"non_baton_draws"`
+	WallS       float64           `json:"wall_s"`
+	Real        []string          `json:"real"`
+	Stub        []string          `json:"stub"`
+	Rule        string            `json:"rule"`
+	Assumptions []string          `json:"assumptions"`
+	DetHashes   map[string]string `json:"det_hashes,omitempty"` // selftest: run index -> full hash
+	Replay      *ReplayOutcome    `json:"replay,omitempty"`
+	MaxRunnable int               `json:"max_runnable"`
 }
 
 type WorkerViolation struct {
